@@ -1,0 +1,11 @@
+//go:build verif
+
+package msl
+
+import "github.com/gogpu/naga/msl/internal/codegen"
+
+type VerifNamer = codegen.VerifNamer
+
+func NewVerifNamer() *VerifNamer        { return codegen.NewVerifNamer() }
+func VerifSanitize(label string) string { return codegen.VerifSanitize(label) }
+func VerifKeywords() []string           { return codegen.VerifKeywords() }
